@@ -5,7 +5,7 @@ H = "vf.harness.strings"
 CTX = [("", ""), ("{g;", "}"), ("<g|", ">"), ("map a r[", "]"), ("loop ", " {}"), ("/*", "*/g"), ("g ", "//x"), ("let x ", ""), ("register r[2]\n", ""),
        ("macro m ", " {}"), ("subcircuit ", "{g}"), ("g r[", "]"), ("branch {", "}"), ("from ", " usepulses *"), ("'", "'"), ("g 1.", "")]
 META = {
-    "bounds": {"quick": "every character string of length <= 2 (whole Unicode alphabet, symbolic) through parse_jaqal_string and parse_to_sexpression; holes of <= 1 "
+    "bounds": {"quick": "every character string of length <= 2 (whole Unicode alphabet, symbolic) through parse_to_sexpression and of length <= 1 through parse_jaqal_string; holes of <= 1 "
                         "symbolic character in 9 contexts; 18 programs with one semantic error, their integer literal symbolic (-2..4), through 3 entry points; "
                         "history: a symbolic string of length <= 1 before/after each of 10 pool programs",
                "thorough": "holes of <= 2 symbolic characters in 16 contexts; history strings of length <= 2"},
@@ -20,13 +20,14 @@ def jobs(tier):
     out = []
     F = ["JaqalLexer (all rules, error)", "JaqalParser (LALR driver, error, raise_error, compute_col)", "parse_jaqal_string", "parse_to_sexpression", "circuitbuilder.build"]
     for entry in (0, 1):
-        out.append(CH(name=f"c16_total_whole_e{entry}", base="c16_total", func=f"{H}:c16_total", params=[("s", "str")], pre=["len(s) <= 2"],
+        out.append(CH(name=f"c16_total_whole_e{entry}", base="c16_total", func=f"{H}:c16_total", params=[("s", "str")],
+                      pre=["len(s) <= 2" if (entry == 1 or not q) else "len(s) <= 1"],
                       fixed={"pre": "", "post": "", "entry": entry}, timeout=600 if q else 1800, functions=F,
                       note="all strings of length <= 2: a Circuit, or JaqalError; JaqalParseError carries a position inside the text (a non-blank character) or EOF"))
     n = 1 if q else 2
     for k, (a, b) in enumerate(CTX[:9] if q else CTX):
         out.append(CH(name=f"c16_total_hole{k}", base="c16_total", func=f"{H}:c16_total", params=[("s", "str")], pre=[f"len(s) <= {n}"],
-                      fixed={"pre": a, "post": b, "entry": 0}, timeout=900 if q else 3000, functions=F,
+                      fixed={"pre": a, "post": b, "entry": 0}, timeout=900 if q else 3000, functions=F, twin=False,
                       note=f"hole of <= {n} symbolic characters in the context {a!r} _ {b!r}"))
     for w in range(len(SEMANTIC)):
         out.append(CH(name=f"c16_semantic_{w}", base="c16_semantic", func=f"{H}:c16_semantic", params=[("v", "int"), ("entry", "int")], pre=["-2 <= v <= 4", "0 <= entry <= 2"],
